@@ -126,6 +126,16 @@ def cli_test(ctx: fw.Ctx, texts):
                 if pr.stdout != "" or pr.returncode == 0:
                     ctx.fail({"clause": "cli-edit"}, {"text": t, "args": args, "stdout": pr.stdout, "exit": pr.returncode},
                              f"nima {args} on erroneous {t!r}: stdout {pr.stdout!r} exit {pr.returncode}")
+        # a VALUE that is not exactly one well-formed expression is refused by the command line too
+        for val in ["2;", "[ 1 2 ];", "\"2.0\";", " { a = 1; }; ", "1 +", "", "2;;", "a = 1;"]:
+            for args in (["set", "a", val], ["set", "zz.k", val]):
+                pr = subprocess.run([sys.executable, "-m", "nix_manipulator", *args], input="{ a = 1; }\n", capture_output=True,
+                                    text=True, timeout=60, env=env, cwd=tmp)
+                ctx.count("cli_value_runs")
+                ctx.case({"cli": args}, True)
+                if pr.stdout != "" or pr.returncode == 0:
+                    ctx.fail({"clause": "cli-bad-value"}, {"args": args, "stdout": pr.stdout, "exit": pr.returncode},
+                             f"nima {args} (VALUE is not one well-formed expression): stdout {pr.stdout!r} exit {pr.returncode}")
     finally:
         import shutil
 
